@@ -19,7 +19,7 @@ META_KEYS = DC_KEYS + ['status', 'note', 'confidenceScore']
 SPECIALS = ['quo"te', "ap'os", 'a<b', 'a&b', 'a>b', 'tab\there', 'nl\nhere', 'é',
             '\U0001F600 grin', 'שלום', '  lead', 'trail  ', 'dbl  sp',
             ']]>', '&amp;', '&#65;', '%s', "';--", '<!--c-->', 'été', 'a\\b',
-            '猫', 'A:B', '*', '?', '¿qué?', '«ï»', 'ＡＢ\ufeffｃ']
+            '猫', 'A:B', '*', '?', '¿qué?', '«ï»', 'ＡＢ\ufeffｃ', 'open <? pi', 'close ?> pi']
 # only in attribute values and ILI definitions (in element text the reader's whitespace
 # normalisation would fold some of them, about which no property speaks)
 ATTR_SPECIALS = ['c1\x96ctl', 'nel\x85x', 'ls\u2028ps\u2029x', 'nb\xa0sp', 'zw\u200bsp',
@@ -31,6 +31,7 @@ VOCAB = ['cat', 'Cat', 'CAT', 'chat', 'résumé', 'resume', 'Resume', 'dog', 'Hu
          'wolf', 'wolves', 'ox', 'oxen', 'es', 's', 'fire', 'info', 'café', 'cafe',
          'naïve', 'naive', 'дом', 'bank', 'Bank', 'spring', 'light']
 POS = ['n', 'v', 'a', 's', 'r']
+RARE_POS = ['t', 'c', 'p', 'x', 'u']      # phrase, conjunction, adposition, other, unknown
 SYNSET_RELS = ['hypernym', 'hyponym', 'instance_hypernym', 'instance_hyponym', 'similar',
                'also', 'mero_part', 'holo_part', 'meronym', 'holonym', 'attribute',
                'x-custom', 'domain_topic']
@@ -92,6 +93,8 @@ class Profile(dict):
             cross_kind_ids=rng.random() < 0.2,
             p_rerelease=0.0,
             p_ext_forms=rng.choice([0.0, 0.5]),   # extensions adding Forms to base entries
+            p_empty_version=rng.choice([0.0, 0.0, 0.3]),
+            p_rare_pos=rng.choice([0.0, 0.0, 0.25]),   # parts of speech t, c, p, x, u
         )
         p.update(forced)
         return p
@@ -103,6 +106,11 @@ class Gen:
         self.p = profile
 
     # -- small helpers ---------------------------------------------------------------
+    def pos(self) -> str:
+        if self.chance(self.p.get('p_rare_pos', 0.0)):
+            return self.rng.choice(RARE_POS)
+        return self.rng.choice(POS)
+
     def kind_letter(self, kind) -> str:
         return 'x' if self.p.get('cross_kind_ids') else kind
 
@@ -228,7 +236,7 @@ class Gen:
         return ''
 
     def new_synset(self, sid, ge11):
-        ss = {'id': sid, 'ili': self.pick_ili(), 'partOfSpeech': self.rng.choice(POS),
+        ss = {'id': sid, 'ili': self.pick_ili(), 'partOfSpeech': self.pos(),
               'meta': self.meta(), 'definitions': [], 'relations': [], 'examples': []}
         if self.chance(self.p.get('p_no_synset_pos', 0.0)):
             del ss['partOfSpeech']
@@ -261,7 +269,7 @@ class Gen:
         return s
 
     def new_entry(self, eid, ge11, fidprefix):
-        pos = self.rng.choice(POS)
+        pos = self.pos()
         lemma = {'writtenForm': self.rng.choice(VOCAB), 'partOfSpeech': pos,
                  'tags': self.tags(), 'pronunciations': self.prons(ge11)}
         if self.chance(0.2):
@@ -563,6 +571,8 @@ def generate(rng: random.Random, profile: Profile | None = None) -> dict:
     for i in range(p['n_bases']):
         lid = ids.pop()
         vers = rng.sample(VERSIONS, 3)
+        if g.chance(p.get('p_empty_version', 0.0)):
+            vers[rng.randrange(3)] = ''       # an unversioned release: version=""
         lang = rng.choice(LANGS)
         nver = 2 if g.chance(p['p_second_version']) else 1
         if nver == 2 and g.chance(0.3):
@@ -685,7 +695,7 @@ def generate(rng: random.Random, profile: Profile | None = None) -> dict:
             cols = [cols[0]] + list(reversed(cols[1:]))
         ili_files.append({'name': 'ili%d' % i, 'upper': g.chance(0.3), 'columns': cols,
                           'rows': rows, 'crlf': g.chance(0.2), 'extra_column': g.chance(0.2),
-                          'interior_columns': g.chance(0.25)})
+                          'interior_columns': g.chance(0.25), 'mixed_eol': g.chance(0.2)})
     # re-releases: other content under an unchanged id:version (installed only after the first
     # release has been removed), e.g. a wordnet under development or a silently fixed release
     alt = {}
@@ -860,3 +870,46 @@ def generate_huge_ili(rng: random.Random, m=40000) -> dict:
             'ili_files': [{'name': 'ili0', 'upper': False,
                            'columns': ['ili', 'status', 'definition'], 'rows': rows,
                            'crlf': False, 'extra_column': False}]}
+
+
+def generate_many_ext(rng: random.Random, n=None) -> dict:
+    """A base lexicon with MANY extensions (an extension project whose releases are installed
+    side by side): each gives the same base word a sense of its own on the same base synset."""
+    n = n or rng.choice([105, 130])
+
+    def header(lid, ver, label):
+        return {'id': lid, 'version': ver, 'label': label, 'language': 'en',
+                'email': 'm@example.com', 'license': 'MIT', 'meta': None, 'requires': [],
+                'entries': [], 'synsets': [], 'frames': []}
+    base = header('mb', '1', 'Many base')
+    base['extends'] = None
+    base['synsets'].append({'id': 'mb-s0', 'ili': 'i1', 'partOfSpeech': 'n', 'meta': None,
+                            'definitions': [], 'relations': [], 'examples': []})
+    base['entries'].append({'id': 'mb-e0',
+                            'lemma': {'writtenForm': 'tree', 'partOfSpeech': 'n', 'tags': [],
+                                      'pronunciations': []},
+                            'forms': [], 'frames': [], 'meta': None,
+                            'senses': [{'id': 'mb-k0', 'synset': 'mb-s0', 'meta': None,
+                                        'relations': [], 'examples': [], 'counts': []}]})
+    lexicons = {'mb:1': base}
+    order = ['mb:1']
+    group = []
+    resources = [{'name': 'r0', 'lmf_version': '1.1', 'lexicons': ['mb:1']}]
+    for i in range(1, n + 1):
+        x = header('mx', str(i), 'Many ext %d' % i)
+        x['extends'] = {'id': 'mb', 'version': '1'}
+        x['entries'].append({'id': 'mb-e0', 'external': True, 'forms': [],
+                             'senses': [{'id': 'mx%d-k0' % i, 'synset': 'mb-s0', 'meta': None,
+                                         'relations': [], 'examples': [], 'counts': []}]})
+        x['synsets'].append({'id': 'mb-s0', 'external': True, 'definitions': [],
+                             'relations': [], 'examples': []})
+        sp = 'mx:%d' % i
+        lexicons[sp] = x
+        order.append(sp)
+        group.append(sp)
+        if len(group) == 40 or i == n:
+            resources.append({'name': 'r%d' % len(resources), 'lmf_version': '1.1',
+                              'lexicons': group})
+            group = []
+    return {'profile': {'many_ext': n}, 'lexicons': lexicons, 'order': order,
+            'resources': resources, 'ili_files': []}
